@@ -476,7 +476,7 @@ def ob_float(method, timeout_ms):
         return out
     absorb(out, run)
     thorough = timeout_ms > 200000
-    budget = 300000 if thorough else 70000
+    budget = 120000 if thorough else 70000
 
     def fpval(m, t):
         v = m.eval(t, model_completion=True)
